@@ -45,6 +45,14 @@ int rf_wavheader_decode(const uint8_t *p, unsigned int sz, rf_wavheader_t *wh)
 	wh->byte_rate = rf_unpack_u32le(&pack);
 	wh->block_align = rf_unpack_u16le(&pack);
 	wh->bits_per_sample = rf_unpack_u16le(&pack);
+
+	/* the size of the skipped extension comes from an untrusted 32-bit
+	 * field; refuse sizes that would wrap the cursor arithmetic and the
+	 * (int) return value
+	 */
+	if (wh->fmt_chunk_size > 0x7fffff00)
+		return -EINVAL;
+
 	if (wh->fmt_chunk_size >= 18) {
 		wh->cb_size = rf_unpack_u16le(&pack);
 
